@@ -90,10 +90,11 @@ def query_boundaries(rng):
         out.append(b"?a=b&" + b"n" * (k - 2) + b"=v")
         out.append(b"?" + b"n" * (k - 2) + b"=v&a=b")
         out.append(b"?n=" + b"v" * (k - 2))
-    for n in (35, 36, 37, 38, 40):                # params[1024]: "a=b" formats to 28 bytes
+    for n in (35, 36, 37, 38, 40):                # params[1024]: "a=b" formats to 27 bytes
         out.append(b"?" + b"&".join([b"a=b"] * n))
-    for tail in (b"ab=cd", b"abc=cd", b"abcd=cd", b"abcde=cde", b"abcde=cdef"):   # around 1024 exactly
-        out.append(b"?" + b"&".join([b"a=b"] * 35) + b"&" + tail)
+    for total in (1021, 1022, 1023, 1024, 1025):   # strlen(result) after the last pair: 1023 is the last that fits
+        nv = total - 36 * 27 - 25
+        out.append(b"?" + b"&".join([b"a=b"] * 36) + b"&" + b"n" * (nv // 2) + b"=" + b"v" * (nv - nv // 2))
     return out
 
 
@@ -312,7 +313,8 @@ def build_script(rng, proxy, port, dirlen, listener, groups):
 # ------------------------------------------------------------------ direct oracle (no model)
 STATUS = {b"HTTP/1.0 200 OK": 200, b"HTTP/1.0 404 Not found": 404, b"HTTP/1.0 400 Invalid Request": 400}
 PROXY_OK = b"HTTP/1.0 200 OK\r\nContent-Type: octet-stream\r\nPragma: no-cache\r\n\r\n"
-PARAM_RE = re.compile(rb'(<PARAM NAME="[A-Za-z0-9_.:\[\] ]*" VALUE="[A-Za-z0-9_.:\[\] ]+">\n)*\Z')
+# "harmless": printable ASCII without the bytes that could leave the quoted HTML attribute or start markup
+PARAM_RE = re.compile(rb'(<PARAM NAME="[^\x00-\x1f\x7f-\xff<>"\'&\\`]*" VALUE="[^\x00-\x1f\x7f-\xff<>"\'&\\`]+">\n)*\Z')
 
 
 def lexical_inside(rel):
@@ -369,9 +371,11 @@ def oracle(sc, impl):
     """-> first violation of the property's words on the implementation's observations, or None"""
     ops = [l for l in sc["script"].splitlines() if l]
     proxy = sc["proxy"]
-    pending_open = False
+    hist = b""          # bytes sent on the current connection before this burst
     for i, (op, ob) in enumerate(zip(ops, impl)):
         t = op.split()
+        if t[0] in ("newconn", "hangup"):
+            hist = b""
         if t[0] == "cfg":
             proxy = int(t[1])
         if "rfb=dead" in ob:
@@ -383,6 +387,8 @@ def oracle(sc, impl):
         d = parse_ob(ob)
         b = unhx(t[1])
         seen = b[:BUF - 1]
+        whole = (hist + b)[:BUF - 1]      # a server that kept earlier bursts would decide on this
+        hist = hist + b if d["conn"] == "open" else b""
         opened = [] if d["open"] == "-" else d["open"].split(",")
         for p in opened:
             if p[0] != "W":
@@ -397,6 +403,8 @@ def oracle(sc, impl):
             return "op %d: connection handed to the RFB server although proxy support is off" % i
         if t[3] == "full":
             vg = valid_get(seen) if terminator_seen(b) else None
+            if vg is None and terminator_seen(whole):
+                vg = valid_get(whole)
             if opened and vg is None:
                 return "op %d: file opened for something that is not a GET of a path below the directory" % i
             if d["conn"] == "open":
@@ -408,6 +416,8 @@ def oracle(sc, impl):
         st = STATUS.get(resp, 0)
         complete = terminator_seen(b)
         vg = valid_get(seen) if complete else None
+        if vg is None and terminator_seen(whole):
+            vg = valid_get(whole)
         is_proxy_answer = int(d["len"]) >= len(PROXY_OK) and d["conn"] == "handed" or \
             (int(d["len"]) == len(PROXY_OK) and int(d["hash"], 16) == fnv(PROXY_OK))
         if is_proxy_answer and not proxy:
@@ -422,15 +432,15 @@ def oracle(sc, impl):
         if st == 200:
             if vg is None:
                 return "op %d: 200 OK for a request that is not a GET of a path below the directory" % i
-            want = b"/index.vnc" if vg == b"/" else vg
-            if [unhx(p[1:]) for p in opened] != [want]:
-                return "op %d: 200 OK but opened %r for requested %r" % (i, opened, want)
+            if len(opened) != 1:
+                return "op %d: 200 OK but opened %r" % (i, opened)
+            want = unhx(opened[0][1:])       # confinement of this path was checked above
             c = content_of(sc["files"], sc["dirs"], want)
             if not want.endswith(b".vnc"):
                 exp = fnv(c if c is not None else b"")
                 if int(d["bhash"], 16) != exp:
-                    return "op %d: body is not the content of the requested file %r" % (i, want)
-            if d["par"] != "-" and want in (b"/index.vnc", b"/q.vnc"):   # the files with \x01$PARAMS\x02
+                    return "op %d: body is not the content of the opened file %r" % (i, want)
+            if d["par"] != "-" and content_of(sc["files"], sc["dirs"], want) in (INDEX, b"\x01$PARAMS\x02"):
                 if not PARAM_RE.match(unhx(d["par"][1:])):
                     return "op %d: $PARAMS expansion leaves the harmless alphabet: %r" % (i, unhx(d["par"][1:]))
         else:
@@ -438,14 +448,70 @@ def oracle(sc, impl):
                 return "op %d: file opened for something that is not a GET of a path below the directory" % i
             if opened and st != 404:
                 return "op %d: file opened but neither served nor answered 404" % i
-        if complete and d["conn"] == "open":
-            return "op %d: complete request neither answered nor closed" % i
+        if complete and terminator_seen(whole) and d["conn"] == "open":
+            return "op %d: complete request: connection neither closed nor handed over (response %r)" % (i, resp)
         if t[3] == "half" and d["conn"] == "open":
             return "op %d: connection still open after the peer finished" % i
         if st and d["conn"] != "closed":
             return "op %d: connection not closed after the response" % i
     if len(impl) != len(ops):
         return "observation count %d != ops %d" % (len(impl), len(ops))
+    return None
+
+
+# ------------------------------------------------------------------ slow reader (harness only, virtual time)
+STALL_BOUND_MS = 20000      # rfbMaxClientWait: what one stuck rfbWriteExact may cost
+
+
+def slow_script(rng):
+    """a peer that requests a file and never reads the answer (server send buffer minimal); the time
+    rfbWriteExact would sleep is accounted virtually by the interposed select"""
+    files, dirs = sandbox(rng)
+    files = dict(files)
+    files[b"many.vnc"] = b"f" * 6000 + b"$PORT " * 200 + b"$WIDTH$HEIGHT$USER" * 50 + b"\n"
+    lines = setup_lines(80, rng.choice([4, 6]), files, dirs) + ["cfg 0 5900"]
+    targets = [b"/a.txt", b"/big.bin", b"/big.vnc", b"/many.vnc", b"/index.vnc", b"/nonexist", b"/../secret"]
+    rng.shuffle(targets)
+    for t in targets:
+        lines.append("slowreq " + hx(b"GET " + t + b" HTTP/1.0\r\n\r\n"))
+        lines.append("req %s - keep" % hx(b"GET /a.txt HTTP/1.0\r\n\r\n"))     # and the server still works
+    return {"script": "\n".join(lines) + "\n", "origin": "gen:slow", "proxy": 0, "port": 5900, "dirlen": 80,
+            "files": files, "dirs": dirs}
+
+
+def run_slow(ctx, sc, h, env, dist):
+    """-> failure or None"""
+    rc, impl, err = ctx.run_lines(h, sc["script"], timeout=300, env=env)
+    ops = [l for l in sc["script"].splitlines() if l]
+    if rc != 0:
+        return {"kind": "crash", "what": "httpd.slowreader: harness exit %d" % rc, "script": ops[-30:],
+                "impl": impl[-10:], "detail": err}
+    for i, (op, ob) in enumerate(zip(ops, impl)):
+        t = op.split()
+        if t[0] != "slowreq":
+            if "rfb=dead" in ob:
+                return {"kind": "oracle", "what": "C20 oracle", "script": ops, "impl": impl,
+                        "detail": "op %d: RFB client no longer served after a non-reading HTTP peer" % i}
+            continue
+        d = parse_ob(ob)
+        if "vstall" not in d:
+            return {"kind": "oracle", "what": "C20 oracle", "script": ops, "impl": impl,
+                    "detail": "op %d: harness could not run slowreq: %s" % (i, ob)}
+        v = int(d["vstall"])
+        dist["virtual_stall_ms"][unhx(t[1]).split()[1].decode("latin1")] = v
+        if v > STALL_BOUND_MS:
+            return {"kind": "oracle", "what": "C20 oracle (stall)", "script": ops[:i + 1][-3:] if False else
+                    [l for l in ops[:i + 1] if not l.startswith(("slowreq", "req")) or l == op],
+                    "impl": [ob],
+                    "detail": "op %d: a peer that does not read its answer stalls the (single-threaded) RFB service for "
+                              "%d ms of select time in ONE request; one stuck write may cost rfbMaxClientWait = %d ms"
+                              % (i, v, STALL_BOUND_MS)}
+        if d["conn"] != "closed" or d["rfb"] != "ok":
+            return {"kind": "oracle", "what": "C20 oracle", "script": ops, "impl": impl,
+                    "detail": "op %d: after a non-reading peer: %s" % (i, ob)}
+    if len(impl) != len(ops):
+        return {"kind": "oracle", "what": "C20 oracle", "script": ops, "impl": impl[-5:],
+                "detail": "slow script: %d observations for %d ops" % (len(impl), len(ops))}
     return None
 
 
@@ -513,7 +579,7 @@ def _run(ctx, env):
         for p in sorted(glob.glob(os.path.join(CORPUS, "*.ops"))):
             scripts.append(script_from_text(open(p).read(), "corpus:" + os.path.basename(p)))
         quick = ctx.tier == "quick"
-        dirlens = [70, 100, 200, 250, 254, 255, 256, 300]
+        dirlens = [70, 100, 200, 250, 254, 255, 256, 300, 511, 512, 600]
         plan = []
         for proxy in (0, 1):
             for dl in dirlens:
@@ -533,11 +599,22 @@ def _run(ctx, env):
             sc["origin"] = "gen:%s" % focus
             scripts.append(sc)
 
+    slow = [sc for sc in scripts if "slowreq" in sc["script"]]
+    scripts = [sc for sc in scripts if "slowreq" not in sc["script"]]
+    if not ctx.replay:
+        slow += [slow_script(rng) for _ in range(1 if ctx.tier == "quick" else 4)]
     results = common.pmap(lambda sc: common.compare_streams(ctx, sc["script"], h, d, "httpd.request", env=env,
                                                             timeout=300), scripts)
     fails, samples, seen = [], [], set()
-    dist = {"outcome": {}, "end": {}, "cuts": {}, "reqlen": {}, "proxy": {}, "dirlen": {}, "focus": {}, "ops": {}}
+    dist = {"outcome": {}, "end": {}, "cuts": {}, "reqlen": {}, "proxy": {}, "dirlen": {}, "focus": {}, "ops": {},
+            "virtual_stall_ms": {}}
     evals = 0
+    for sc in slow:
+        f = run_slow(ctx, sc, h, env, dist)
+        evals += sc["script"].count("slowreq ")
+        if f:
+            f["origin"] = sc.get("origin")
+            fails.append(f)
 
     def bump(k, v):
         dist[k][str(v)] = dist[k].get(str(v), 0) + 1
@@ -567,6 +644,7 @@ def _run(ctx, env):
             f["origin"] = sc.get("origin")
             f2 = shrink(ctx, sc, h, d, f, env)
             f2.pop("impl_all", None)
+            f2["origin"] = sc.get("origin")
             tag_finding(f2)
             fails.append(f2)
         if not (f and f["kind"] == "crash"):
@@ -578,6 +656,7 @@ def _run(ctx, env):
                 if m:
                     ff["line"] = int(m.group(1))
                     ff = shrink(ctx, sc, h, d, ff, env)
+                    ff["origin"] = sc.get("origin")
                 fails.append(ff)
         if len(samples) < 3 and sc.get("origin", "").startswith("gen"):
             k = next(i for i, l in enumerate(ops) if l.startswith("cfg"))
